@@ -1,0 +1,14 @@
+//go:build verif
+// +build verif
+
+package fileutil
+
+// VerifHook is installed by package node (verif_on.go) so that purge steps are named
+// crash points like the ones on the persist / apply / snapshot path.
+var VerifHook func(name string)
+
+func verifPoint(name string) {
+	if h := VerifHook; h != nil {
+		h(name)
+	}
+}
